@@ -552,3 +552,62 @@ fn check_obs(rec: &mut Recorder, op: &str, got: &[String], want: &[String]) {
         ));
     }
 }
+
+// ------------------------------------------------------------------ script generators
+
+use crate::factsworld::KeyPool;
+use crate::Rng;
+
+pub fn gen_script(rng: &mut Rng, pool: &KeyPool, n: u64, fail: bool, publish: bool) -> String {
+    let mut ops: Vec<String> = vec![];
+    for _ in 0..n {
+        match rng.below(10) {
+            0..=3 => {
+                let k = pool.key(rng);
+                let v = KeyPool::val(rng);
+                ops.push(format!("ins/{}/{}", show_key(&k), hex(&v)));
+            }
+            4..=5 => {
+                let k = pool.key(rng);
+                ops.push(format!("del/{}", show_key(&k)));
+            }
+            6..=7 => {
+                let k = pool.key(rng);
+                ops.push(format!("q/{}", show_key(&k)));
+            }
+            _ => {
+                let k = pool.prefix(rng);
+                ops.push(format!("qp/{}", show_key(&k)));
+            }
+        }
+    }
+    if publish {
+        let at = rng.below(ops.len() as u64 + 1) as usize;
+        ops.insert(at, "pub".into());
+        if rng.chance(1, 4) {
+            ops.push("pub".into());
+        }
+    }
+    if fail {
+        let at = rng.below(ops.len() as u64 + 1) as usize;
+        ops.insert(at, "fail".into());
+    }
+    if ops.is_empty() {
+        ".".into()
+    } else {
+        ops.join(";")
+    }
+}
+
+/// all pool keys and name-level prefixes, observed from inside a (successful, write-free) call
+pub fn observe_all(pool: &KeyPool) -> String {
+    let mut ops: Vec<String> = pool.keys.iter().map(|k| format!("q/{}", show_key(k))).collect();
+    let mut names: Vec<Vec<u8>> = pool.keys.iter().map(|k| k.0.clone()).collect();
+    names.sort();
+    names.dedup();
+    for nm in names {
+        ops.push(format!("qp/{}", show_key(&(nm, vec![]))));
+    }
+    ops.join(";")
+}
+
